@@ -35,6 +35,18 @@ theorem C15_loser (s : St) (t ch : Nat) (h : s.threads[t]? = some .c1) (hc : s.o
 
 end FV.WsCl
 
+namespace FV.WsCl
+/-- **Listen returns nil after a local close**: under every schedule of any number of closers and
+every behaviour of reader, peer and network, the `Closed` bit is set no later than the underlying
+connection is closed — so a reader whose `ReadMessage` fails *because of* that close finds
+`hasConnState(Closed)` true and takes the healthy-close exit — and a `Close` call that returned
+without the multiple-close error has left `Closed` set. -/
+theorem C15_closed_before_close (n : Nat) (sched : List (Nat × Nat)) :
+    (1 ≤ (run (init n) sched).connCloses → (run (init n) sched).closed = true) ∧
+    (∀ t, (run (init n) sched).threads[t]? = some .retDone → (run (init n) sched).closed = true) :=
+  ⟨(inv2_run _ sched (inv2_init n)).cc, (inv2_run _ sched (inv2_init n)).done⟩
+end FV.WsCl
+
 namespace FV.WsR
 
 theorem lt_of_get {l : List Pc} {t : Nat} {p : Pc} (h : l[t]? = some p) : t < l.length := by
